@@ -524,3 +524,109 @@ def rule_mk2(ctx, rels):
     if blocks == 0:
         r.ok("MK2", "modules", ",".join(rels), "",
              "no `if <mask>.any():` repair block")
+
+
+def rule_key1(ctx, rels):
+    r = ctx.r
+    r.rule("KEY1", "memo-key completeness: where a function keeps its result "
+                   "in a module-level dictionary, every input the stored "
+                   "value depends on (parameters and `self.<attribute>`s "
+                   "read on the way, including the arguments of in-place "
+                   "method calls on the value: `aut.rename_generators("
+                   "self.ordered_gens)`) also enters the key. An input "
+                   "missing from the key makes a second object with the same "
+                   "key but another value of that input receive the first "
+                   "object's result")
+    n = 0
+    for rel in rels:
+        m = ctx.p.module_by_rel(rel)
+        caches = set()
+        for st in m.tree.body:
+            if isinstance(st, ast.Assign) and len(st.targets) == 1 \
+                    and isinstance(st.targets[0], ast.Name) and (
+                        (isinstance(st.value, ast.Dict)
+                         and not st.value.keys)
+                        or (isinstance(st.value, ast.Call)
+                            and dotted(st.value.func) in (
+                                "dict", "OrderedDict",
+                                "collections.OrderedDict")
+                            and not st.value.args)):
+                caches.add(st.targets[0].id)
+        if not caches:
+            continue
+        for f in ctx.p.all_functions:
+            if f.module is not m:
+                continue
+            stores = [st for st in ast.walk(f.node)
+                      if isinstance(st, ast.Assign)
+                      and isinstance(st.targets[0], ast.Subscript)
+                      and isinstance(st.targets[0].value, ast.Name)
+                      and st.targets[0].value.id in caches]
+            if not stores:
+                continue
+            params = {p for p in f.params if p not in ("self", "cls")}
+            # everything that flows into a local: its assignments and the
+            # arguments of method calls made on it
+            flows = {}
+            for st in ast.walk(f.node):
+                if isinstance(st, ast.Assign):
+                    for t in st.targets:
+                        for x in ast.walk(t):
+                            if isinstance(x, ast.Name) and isinstance(
+                                    x.ctx, ast.Store):
+                                flows.setdefault(x.id, []).append(st.value)
+                if isinstance(st, ast.Expr) and isinstance(
+                        st.value, ast.Call) and isinstance(
+                        st.value.func, ast.Attribute) and isinstance(
+                        st.value.func.value, ast.Name):
+                    c = st.value
+                    flows.setdefault(c.func.value.id, []).extend(
+                        list(c.args) + [k.value for k in c.keywords])
+
+            def deps(e):
+                seen, out = set(), set()
+                todo = [e]
+                while todo:
+                    x = todo.pop()
+                    for y in ast.walk(x):
+                        if isinstance(y, ast.Attribute) and dotted(
+                                y.value) == "self":
+                            out.add("self." + y.attr)
+                        if isinstance(y, ast.Name) and isinstance(
+                                y.ctx, ast.Load):
+                            if y.id in params:
+                                out.add(y.id)
+                            if y.id in flows and y.id not in seen:
+                                seen.add(y.id)
+                                todo.extend(flows[y.id])
+                return out
+            for st in stores:
+                n += 1
+                r.analysed(f)
+                key = st.targets[0].slice
+                kd, vd = deps(key), deps(st.value)
+                # methods called on self are not inputs
+                vd = {d for d in vd if not (
+                    d.startswith("self.") and ctx.p.find_method(
+                        f.cls, d[5:]) is not None and not any(
+                        ast.unparse(x) == "property" for x in
+                        ctx.p.find_method(f.cls, d[5:]).node.decorator_list)
+                )} if f.cls is not None else vd
+                missing = sorted(vd - kd)
+                inst = f"{f.qualname}:{st.targets[0].value.id}"
+                if not missing:
+                    r.ok("KEY1", inst, loc(f, st), norm_stmt(st)[:80],
+                         "the key covers " + ", ".join(sorted(vd)))
+                else:
+                    r.violation(
+                        "KEY1", f"{f.fq}|{'+'.join(missing)[:60]}",
+                        loc(f, st), norm_stmt(st)[:140],
+                        f"the cached value depends on "
+                        f"{', '.join(missing)}, which the key "
+                        f"`{ast.unparse(key)[:60]}` does not contain: a "
+                        "second object that agrees on the key but not on "
+                        f"{missing[0]} is handed the first object's result",
+                        instance=inst)
+    if n == 0:
+        r.ok("KEY1", "modules", ",".join(rels), "",
+             "no module-level memo dictionary is written")
